@@ -849,9 +849,9 @@ func (g *Generator) getMethodPath(method *protogen.Method, basePath string, pack
 		return basePath + customPath
 	}
 
-	// If only custom path, use it
+	// If only custom path, use it (normalised like the other generators: "users/{id}" is "/users/{id}")
 	if customPath != "" {
-		return customPath
+		return annotations.EnsureLeadingSlash(customPath)
 	}
 
 	// Generate default path
